@@ -269,6 +269,34 @@ class Tally:
             self.ctx.violation(obj, summary, **kw)
 
 
+def eval_spread(ctx, name, exprs, shard):
+    """coq_eval with the expensive (long) expressions dealt round-robin over the shards instead of
+    clustered in one file; answers are returned in the original order."""
+    n = len(exprs)
+    nsh = max(1, (n + shard - 1) // shard)
+    order = sorted(range(n), key=lambda i: -len(exprs[i]))
+    buckets = [[] for _ in range(nsh)]
+    for j, i in enumerate(order):
+        buckets[j % nsh].append(i)
+    size = max(len(b) for b in buckets)
+    perm = []
+    for b in buckets:
+        perm.extend(b)
+    # all buckets but possibly the last ones have `size` entries; pad by re-evaluating a cheap expression
+    flat, index = [], []
+    for b in buckets:
+        for i in b:
+            flat.append(exprs[i]); index.append(i)
+        for _ in range(size - len(b)):
+            flat.append("0"); index.append(None)
+    terms = c.coq_eval(ctx, name, PRE, flat, shard=size)
+    res = [None] * n
+    for i, t in zip(index, terms):
+        if i is not None:
+            res[i] = t
+    return res
+
+
 def lines(out):
     return [json.loads(l) for l in out.splitlines() if l.startswith("{")]
 
@@ -328,7 +356,7 @@ def run(ctx):
         return "(bytes_eqb (encode %s) %s, (value_okb %s, value_sortedb %s), (veqb (norm %s) %s, veqb %s %s))" % (
             V, nlist(cs["hex"]), V, V, V, R, V, R)
     exprs = [val_expr(cs) for cs in cases]
-    terms = c.coq_eval(ctx, "values", PRE, exprs, shard=40 if q else 100)
+    terms = eval_spread(ctx, "values", exprs, 40 if q else 100)
     depths = {}
     for cs, t in zip(cases, terms):
         menc, (okb, sortedb), mnorm = t
@@ -371,11 +399,15 @@ def run(ctx):
     nb = 700 if q else 4500
     rc, out = c.run_bin(binp, ["bytes", ctx.seed, nb, maxdepth], timeout=1200)
     if rc != 0:
-        last = [l for l in out.splitlines() if l.startswith("{")][-1:]
-        ctx.violation({"layer": "harness run", "mode": "bytes", "output": out[-1500:], "last_case_before_crash": last},
-                      "byte-stream harness crashed (abort in decode?)", no_input=True)
+        ls = lines(out)
+        if ls and ls[-1]["k"] == "pending":
+            ctx.violation({"case": ls[-1], "exit_code": rc, "stderr_tail": out[-400:],
+                           "theorem": "cbor_decode_alloc_bounded / cbor_decode_total (the model rejects or accepts this input with bounded allocation)"},
+                          "cbor_decode::<Value> aborted the process (exit %s) on input %s" % (rc, ls[-1]["hex"][:120]))
+        else:
+            ctx.violation({"layer": "harness run", "mode": "bytes", "output": out[-1500:]}, "byte-stream harness crashed", no_input=True)
         return
-    cases = lines(out)
+    cases = [x for x in lines(out) if x["k"] != "pending"]
     def bytes_expr(cs):
         B = nlist(cs["hex"])
         if len(cs["hex"]) <= BIG:
@@ -387,7 +419,7 @@ def run(ctx):
             if isinstance(cs["pre"], dict) else "match run_prefix %s with Some _ => false | None => true end" % B)
         return "(%s, %s)" % (top, pre)
     exprs = [bytes_expr(cs) for cs in cases]
-    terms = c.coq_eval(ctx, "bytes", PRE, exprs, shard=50 if q else 300)
+    terms = eval_spread(ctx, "bytes", exprs, 50 if q else 300)
     acc = rej = 0
     worst = 0.0
     for cs, t in zip(cases, terms):
@@ -443,9 +475,14 @@ def run(ctx):
     nt = 4 if q else 25
     rc, out = c.run_bin(binp, ["typed", ctx.seed, nt], timeout=1200)
     if rc != 0:
-        ctx.violation({"layer": "harness run", "mode": "typed", "output": out[-2000:]}, "typed harness crashed", no_input=True)
+        ls = lines(out)
+        if ls and ls[-1]["k"] == "pending":
+            ctx.violation({"case": ls[-1], "exit_code": rc, "stderr_tail": out[-400:]},
+                          "cbor_decode::<%s> aborted the process (exit %s) on input %s" % (ls[-1]["ty"], rc, ls[-1]["hex"][:120]))
+        else:
+            ctx.violation({"layer": "harness run", "mode": "typed", "output": out[-2000:]}, "typed harness crashed", no_input=True)
         return
-    cases = lines(out)
+    cases = [x for x in lines(out) if x["k"] != "pending"]
     exprs = []
     for cs in cases:
         s = '(schema_of "%s"%%string)' % cs["ty"]
